@@ -20,6 +20,8 @@ def toHex (b : Bytes) : String :=
   if b.isEmpty then "." else
   String.ofList (b.foldr (fun x acc => hexDigit (x.toNat / 16) :: hexDigit (x.toNat % 16) :: acc) [])
 
+def natOf (s : String) : Nat := s.toNat?.getD 0
+
 def optHex (s : String) : Option Bytes := if s == "-" then none else some (parseHex s)
 
 def aerr : AErr → String
